@@ -412,6 +412,11 @@ def replay_group(prog, alts, root, bindir, trace=None, log_mode=None, jflag=None
                     diffs.append('exit status: have %s, spec says %s' % (rc, st['rc']))
                 if sorted(started) != sorted(st['ran']) and want_cat('ran'):
                     diffs.append('scripts run: have %s, spec says %s' % (started, list(st['ran'])))
+                if want_cat('codes') and cats is not None:
+                    import re as _re
+                    seen_codes = sorted(set(int(x) for x in _re.findall(r'\(exit (-?\d+)\)', se)))
+                    if seen_codes != sorted(st.get('codes', [])):
+                        diffs.append('job exit statuses: have %s, spec says %s' % (seen_codes, sorted(st.get('codes', []))))
                 diffs += [txt for (cat, txt) in pj.compare(snap, st['snap']) if want_cat(cat)]
                 if not diffs:
                     nxt.append(h)
